@@ -77,7 +77,7 @@ def grammar(body, prog=None):
         for r in it['guards']:
             r2 = tuple(fin(x) if isinstance(x, tuple) and x and isinstance(x[0], str) and x[0] in mir._KINDS else x for x in r)
             c = util_crel_l(r2, labels)
-            if c.startswith('branch(') or 'next(' in c:
+            if util.is_ok_guard(c) or 'next(' in c:
                 continue
             if c not in g:
                 g.append(c)
